@@ -10,6 +10,7 @@ import (
 	"errors"
 	"fmt"
 	"hash"
+	"io"
 	"os"
 	"os/exec"
 	"path/filepath"
@@ -227,6 +228,36 @@ func TestC13(t *testing.T) {
 			}
 			run(d("of the executed file"), pc.path, sha256.New(), sum(real), true, "")
 			run(d("of the decoy at a/plugin"), pc.path, sha256.New(), sum(decoy), false, "mismatch")
+		}
+	}
+	// ---- a file larger than 1 GiB (sparse: a launcher, a hole, a payload behind the 1 GiB mark): the whole file counts
+	{
+		big := filepath.Join(dir, "big.sh")
+		head := script(17)
+		if f, err := os.OpenFile(big, os.O_CREATE|os.O_WRONLY|os.O_TRUNC, 0o755); err == nil {
+			f.Write(head)
+			f.WriteAt([]byte("\n# payload-beyond-1GiB\n"), 1<<30+4096)
+			f.Close()
+			sumN := func(n int64) []byte {
+				h := sha256.New()
+				if g, err := os.Open(big); err == nil {
+					if n < 0 {
+						io.Copy(h, g)
+					} else {
+						io.CopyN(h, g, n)
+					}
+					g.Close()
+				}
+				return h.Sum(nil)
+			}
+			full := sumN(-1)
+			run("file of 1 GiB + 4 KiB (sparse) hash=sha256 checksum=exact", big, sha256.New(), full, true, "")
+			for _, n := range []int64{1 << 30, 1 << 20, int64(len(head))} {
+				run(fmt.Sprintf("file of 1 GiB + 4 KiB (sparse) hash=sha256 checksum=digest of its first %d bytes", n), big, sha256.New(), sumN(n), false, "mismatch")
+			}
+			os.Remove(big)
+		} else {
+			out.Violations = append(out.Violations, enumViolation{Case: "big file", Class: "ENGINE", Msg: "cannot create the sparse file: " + err.Error()})
 		}
 	}
 	// ---- a relative command path with Cmd.Dir set: os/exec evaluates such a path relative to Dir, so "the file at
